@@ -28,7 +28,9 @@ LeavesOf(f) ==
       [] f = "names" ->
            {Lit(1), Lit(2), Emp, W("add"), W("drop"), Name("A"), Name("B"), Name("F")}
       [] f = "fmt" ->
-           {Lit(1), Lit(2), Emp, W("dup"), W("elem"), Seq12, Str(<<"a">>), W("add"), W("drop")}
+           \* the string leaves carry unbalanced brackets: inside a splice the lexer counts brackets to find
+           \* the end of the embedded program and must skip those of nested string literals
+           {Lit(1), Lit(2), Emp, W("dup"), W("elem"), Seq12, Str(<<")">>), Str(<<"(", "a">>), W("add"), W("drop")}
       [] f = "blocks" -> {Name("A"), Name("B"), Lit(3)}
 
 UnaryOf(f) ==
